@@ -33,7 +33,45 @@ type frame struct {
 }
 
 func (e *Engine) rtPanic(msg string) {
+	e.lastTrace = e.stackTrace()
 	panic(targetPanic{iface{t: e.runtimeErrT, v: "runtime error: " + msg}})
+}
+
+// stackTrace renders the interpreted call stack (innermost first).
+func (e *Engine) stackTrace() string {
+	var sb strings.Builder
+	n := 0
+	for fr := e.curFrame; fr != nil && n < 12; fr = fr.caller {
+		sb.WriteString(fr.fn.String())
+		sb.WriteString(" <- ")
+		n++
+	}
+	return sb.String()
+}
+
+// storeInto assigns v to the cell at addr. Aggregates are written field by field into the existing
+// object so that previously computed interior pointers (&x.f, &a[i]) stay valid, as in real memory.
+func (e *Engine) storeInto(addr *value, v value, log bool) {
+	switch sv := v.(type) {
+	case structure:
+		if dst, ok := (*addr).(structure); ok && len(dst) == len(sv) {
+			for i := range sv {
+				e.storeInto(&dst[i], sv[i], log)
+			}
+			return
+		}
+	case array:
+		if dst, ok := (*addr).(array); ok && len(dst) == len(sv) {
+			for i := range sv {
+				e.storeInto(&dst[i], sv[i], log)
+			}
+			return
+		}
+	}
+	if log {
+		e.logStore(addr)
+	}
+	*addr = copyVal(v)
 }
 
 func (e *Engine) unsupported(msg string) {
@@ -157,6 +195,9 @@ func (e *Engine) callSSA(caller *frame, fn *ssa.Function, args []value, env []va
 	}
 	defer func() { e.depth-- }()
 	fr := &frame{e: e, caller: caller, fn: fn}
+	saved := e.curFrame
+	e.curFrame = fr
+	defer func() { e.curFrame = saved }()
 	fr.info = e.infoOf(fn)
 	fr.env = make([]value, fr.info.n)
 	fr.block = fn.Blocks[0]
@@ -316,16 +357,15 @@ func visitInstr(fr *frame, instr ssa.Instruction) continuation {
 	case *ssa.RunDefers:
 		fr.runDefers()
 	case *ssa.Panic:
+		e.lastTrace = e.stackTrace()
 		panic(targetPanic{fr.get(instr.X)})
 	case *ssa.Store:
 		addr := fr.get(instr.Addr).(*value)
 		if addr == nil {
 			e.rtPanic("invalid memory address or nil pointer dereference")
 		}
-		if al, ok := instr.Addr.(*ssa.Alloc); !ok || al.Heap {
-			e.logStore(addr)
-		}
-		*addr = copyVal(fr.get(instr.Val))
+		al, isAlloc := instr.Addr.(*ssa.Alloc)
+		e.storeInto(addr, fr.get(instr.Val), !isAlloc || al.Heap)
 	case *ssa.If:
 		succ := 1
 		if e.truth(fr.get(instr.Cond)) {
@@ -576,12 +616,16 @@ func (e *Engine) callBuiltin(caller *frame, fn *ssa.Builtin, args []value) value
 		if len(src) < n {
 			n = len(src)
 		}
-		if e.undoOn {
+		if n > 0 && len(src) > 0 && &dst[0] != &src[0] {
+			// overlapping copies within one backing array need a temporary
+			tmp := make([]value, n)
 			for i := 0; i < n; i++ {
-				e.logStore(&dst[i])
+				tmp[i] = copyVal(src[i])
+			}
+			for i := 0; i < n; i++ {
+				e.storeInto(&dst[i], tmp[i], true)
 			}
 		}
-		copy(dst, src)
 		return uint64(n)
 	case "len":
 		switch x := args[0].(type) {
